@@ -61,12 +61,30 @@ LinearEntry(r, b, p, a) ==
 Rq(r, qc) == r.R[qc[1]][qc[2]]
 H(r, f, A, qc) == Fld(r, f).h[A][qc[1]][qc[2]]
 DH(r, f, A, J, qc) == Fld(r, f).dh[A][J + 1][qc[1]][qc[2]]
+\* value test space: the integrand has the two in-plane components and a hoop component that acts on the radial test value / R
+AxiLinearValueEntry(r, b, p, a) ==
+  SumOver(QC(r), LAMBDA qc :
+    SumOver(LocalNodes(r, b.i, qc[2], p), LAMBDA A :
+      H(r, b.i, A, qc) * (FunAt(r, b, <<a>>, qc[1], qc[2]) * Rq(r, qc) + (IF a = 1 THEN FunAt(r, b, <<2>>, qc[1], qc[2]) ELSE 0))
+        * r.dV[qc[1]][qc[2]]))
+\* value test space, gradient trial space (follower loads): integrand components <<a, k, L>> with hoop slots 2
+AxiBilinearValueGradEntry(r, b, p, a, s, k) ==
+  SumOver(QC(r), LAMBDA qc :
+    SumOver(LocalNodes(r, b.i, qc[2], p) \X LocalNodes(r, b.j, qc[2], s), LAMBDA AB :
+      H(r, b.i, AB[1], qc) *
+      ( SumOver(0..1, LAMBDA L : FunAt(r, b, <<a, k, L>>, qc[1], qc[2]) * DH(r, b.j, AB[2], L, qc)) * Rq(r, qc)
+      + (IF a = 1 /\ k = 1 THEN (FunAt(r, b, <<2, 2, 2>>, qc[1], qc[2]) * H(r, b.j, AB[2], qc)) \div Rq(r, qc) ELSE 0)
+      + (IF a = 1 THEN SumOver(0..1, LAMBDA L : FunAt(r, b, <<2, k, L>>, qc[1], qc[2]) * DH(r, b.j, AB[2], L, qc)) ELSE 0)
+      + (IF k = 1 THEN FunAt(r, b, <<a, 2, 2>>, qc[1], qc[2]) * H(r, b.j, AB[2], qc) ELSE 0)
+      ) * r.dV[qc[1]][qc[2]]))
 AxiLinearEntry(r, b, p, a) ==
+  IF ~b.gv THEN AxiLinearValueEntry(r, b, p, a) ELSE
   SumOver(QC(r), LAMBDA qc :
     SumOver(LocalNodes(r, b.i, qc[2], p), LAMBDA A :
       (SumOver(0..1, LAMBDA J : DH(r, b.i, A, J, qc) * FunAt(r, b, <<a, J>>, qc[1], qc[2])) * Rq(r, qc)
        + (IF a = 1 THEN H(r, b.i, A, qc) * FunAt(r, b, <<2, 2>>, qc[1], qc[2]) ELSE 0)) * r.dV[qc[1]][qc[2]]))
 AxiBilinearEntry(r, b, p, a, s, k) ==
+  IF ~b.gv /\ b.gu THEN AxiBilinearValueGradEntry(r, b, p, a, s, k) ELSE
   SumOver(QC(r), LAMBDA qc :
     SumOver(LocalNodes(r, b.i, qc[2], p) \X LocalNodes(r, b.j, qc[2], s), LAMBDA AB :
       ( SumOver((0..1) \X (0..1), LAMBDA JL :
